@@ -124,6 +124,7 @@ type scen struct {
 	tr        *vh.Trace
 	rng       *rand.Rand
 	storeHead uint64
+	tail      uint64 // header store tail (heights below it are not demanded any more)
 	okSet     map[uint64]bool
 	okMu      sync.Mutex
 	base      datastore.Batching // current persistent datastore
@@ -354,7 +355,9 @@ type storeStub struct {
 	sc *scen
 }
 
-func (s storeStub) Tail(context.Context) (*header.ExtendedHeader, error) { return mkHeader(1), nil }
+func (s storeStub) Tail(context.Context) (*header.ExtendedHeader, error) {
+	return mkHeader(atomic.LoadUint64(&s.sc.tail)), nil
+}
 func (s storeStub) Head(context.Context, ...libhead.HeadOption[*header.ExtendedHeader]) (*header.ExtendedHeader, error) {
 	return mkHeader(atomic.LoadUint64(&s.sc.storeHead)), nil
 }
@@ -419,7 +422,7 @@ func (s *scen) checkCp(raw []byte, why string) cpJSON {
 	}
 	s.persists++
 	s.rep.Count("checkpoints_checked", 1)
-	for h := uint64(1); h <= c.NetworkHead; h++ {
+	for h := s.tail; h <= c.NetworkHead; h++ {
 		if s.isOK(h) || h >= c.SampleFrom {
 			continue
 		}
@@ -790,7 +793,7 @@ func (s *scen) doPoke() error {
 func (s *scen) checkStats(st das.SamplingStats) {
 	s.rep.Count("stats_checked", 1)
 	// C04: the reported sampled-chain head is never at or above an unsampled height
-	for h := uint64(1); h <= st.SampledChainHead; h++ {
+	for h := s.tail; h <= st.SampledChainHead; h++ {
 		if !s.isOK(h) && !s.lost[h] {
 			s.lost[h] = true
 			s.rep.Violate("C04/stats/sampled-chain-head-above-unsampled",
@@ -799,7 +802,7 @@ func (s *scen) checkStats(st das.SamplingStats) {
 		}
 	}
 	// C04: every height up to the network head is sampled, queued, in flight or failed
-	for h := uint64(1); h <= st.NetworkHead; h++ {
+	for h := s.tail; h <= st.NetworkHead; h++ {
 		if s.isOK(h) || h > st.CatchupHead {
 			continue
 		}
@@ -925,7 +928,7 @@ func (s *scen) doBgPersist() error {
 // ---------------------------------------------------------------- script execution
 
 func (s *scen) exec(st step) error {
-	if !s.running() && st.Op != "start" && st.Op != "storeadvance" && st.Op != "init" {
+	if !s.running() && st.Op != "start" && st.Op != "storeadvance" && st.Op != "tailadvance" && st.Op != "init" {
 		return fmt.Errorf("instance not running for %s", st.Op)
 	}
 	switch st.Op {
@@ -942,6 +945,13 @@ func (s *scen) exec(st step) error {
 		}
 		atomic.StoreUint64(&s.storeHead, uint64(st.A))
 		s.tr.Emit("storeadvance", "h", st.A)
+		return nil
+	case "tailadvance":
+		if s.running() || uint64(st.A) <= s.tail || uint64(st.A) > s.storeHead {
+			return errors.New("tailadvance not applicable")
+		}
+		atomic.StoreUint64(&s.tail, uint64(st.A))
+		s.tr.Emit("tailadvance", "h", st.A)
 		return nil
 	case "head":
 		return s.doHead(uint64(st.A))
@@ -985,6 +995,9 @@ func (s *scen) randomStep(maxH int) step {
 	if !s.running() {
 		if r.Intn(4) == 0 && int(s.storeHead) < maxH {
 			return step{Op: "storeadvance", A: int(s.storeHead) + 1 + r.Intn(maxH-int(s.storeHead))}
+		}
+		if r.Intn(6) == 0 && s.tail < s.storeHead {
+			return step{Op: "tailadvance", A: int(s.tail) + 1 + r.Intn(int(s.storeHead-s.tail))}
 		}
 		return step{Op: "start"}
 	}
@@ -1115,7 +1128,7 @@ func (s *scen) drain() {
 				s.rep.Violate(sig, fmt.Sprintf("quiescent but %d workers still listed, none of them sampling (silent exits: %d): %+v", len(st.Workers), silent, st), s.replay())
 				return
 			}
-			for h := uint64(1); h <= st.NetworkHead; h++ {
+			for h := s.tail; h <= st.NetworkHead; h++ {
 				if !s.isOK(h) && !s.lost[h] {
 					sig := "C04/drain/height-never-sampled"
 					s.rep.Violate(sig, fmt.Sprintf("everything succeeded from some point on, the DASer is idle (stats %+v) but height %d was never sampled successfully", st, h), s.replay())
@@ -1144,7 +1157,7 @@ func dsQueryAll() query.Query { return query.Query{} }
 
 func runScenario(def scenario, rep *vh.Report, traceFile *os.File, seed int64) {
 	s := &scen{def: def, rep: rep, tr: vh.NewTrace("x"), rng: rand.New(rand.NewSource(seed)),
-		storeHead: 1, okSet: map[uint64]bool{}, base: dssync.MutexWrap(datastore.NewMapDatastore()),
+		storeHead: 1, tail: 1, okSet: map[uint64]bool{}, base: dssync.MutexWrap(datastore.NewMapDatastore()),
 		attempt: map[uint64]int{}, lost: map[uint64]bool{}}
 	steps := def.Steps
 	if len(steps) > 0 && steps[0].Op == "init" {
